@@ -233,7 +233,12 @@ def run(repo: Repo, rep: Report, tier: str) -> None:
         if fn.qual in seen:
             return True, ""
         seen.add(fn.qual)
+        # a call whose result is thrown away (a validation run for its diagnostics) cannot reach the value that is returned; whatever it leaves in `self`
+        # reaches the result only through a later read of `self`, which is examined like any other
+        discarded = {id(x_) for st_ in walk_local(fn.node) if isinstance(st_, ast.Expr) and isinstance(st_.value, ast.Call) for x_ in ast.walk(st_)}
         for n_ in walk_local(fn.node):
+            if id(n_) in discarded:
+                continue
             if isinstance(n_, ast.Attribute) and isinstance(n_.value, ast.Name) and n_.value.id == "self":
                 callee = an_cls.methods.get(n_.attr)
                 if callee is not None:
